@@ -524,18 +524,98 @@ func isNilConst(v ssa.Value) bool {
 	return ok && c.Value == nil
 }
 
-// successReturns: returns whose last result (of type error) is the nil constant; for functions without an
-// error result every return is a success return.
+// successReturns: returns that may report success. For functions without an error result every return counts.
+// A return is a failure return when its error operand is definitely non-nil: built by an error constructor,
+// loaded from an Err* sentinel, or tested non-nil by a dominating fact. `return x, nil` is a success return;
+// `return f(...)` (error passed through from a callee) may be one.
 func successReturns(fn *ssa.Function) []*ssa.Return {
 	var out []*ssa.Return
 	res := fn.Signature.Results()
 	hasErr := res.Len() > 0 && res.At(res.Len()-1).Type().String() == "error"
+	var o *Origin
+	var fa *Facts
 	for _, r := range returnsOf(fn) {
-		if !hasErr || isNilConst(r.Results[len(r.Results)-1]) {
+		if !hasErr {
 			out = append(out, r)
+			continue
 		}
+		ev := r.Results[len(r.Results)-1]
+		if isNilConst(ev) {
+			out = append(out, r)
+			continue
+		}
+		if o == nil {
+			o = &Origin{p: nil, fn: fn, env: map[*ssa.Parameter]*Term{}, fvenv: map[*ssa.FreeVar]*Term{}, memo: map[ssa.Value]*Term{}, busy: map[ssa.Value]bool{}, NoInline: true}
+		}
+		if definitelyError(ev, 0) {
+			continue
+		}
+		// dominated by `ev != nil` ?
+		if fa == nil && progForFacts != nil {
+			oo := NewOrigin(progForFacts, fn)
+			fa = NewFacts(progForFacts, fn, oo)
+			o = oo
+		}
+		if fa != nil {
+			et := o.Of(ev)
+			if _, nonNil := fa.DominatingFact(r, false, func(t *Term) bool {
+				if t.Op != "eq" {
+					return false
+				}
+				a, b := t.Args[0], t.Args[1]
+				if a.Op != "const" {
+					a, b = b, a
+				}
+				return a.Op == "const" && a.Name == "nil" && b.Eq(et)
+			}); nonNil {
+				continue
+			}
+		}
+		out = append(out, r)
 	}
 	return out
+}
+
+// progForFacts is set by Load so that successReturns can evaluate dominating facts.
+var progForFacts *Prog
+
+var errorCtorSuffixes = []string{"fmt.Errorf", "errors.New", "errors.Wrap", "errors.Wrapf", "status.Error", "status.Errorf", "errors.Register"}
+
+func definitelyError(v ssa.Value, depth int) bool {
+	if depth > 4 {
+		return false
+	}
+	switch x := v.(type) {
+	case *ssa.MakeInterface:
+		// a concrete non-nil-able value boxed into error (e.g. *errors.Error loaded from a sentinel)
+		if u, ok := x.X.(*ssa.UnOp); ok {
+			if g, ok := u.X.(*ssa.Global); ok && strings.HasPrefix(g.Name(), "Err") {
+				return true
+			}
+		}
+		return definitelyError(x.X, depth+1)
+	case *ssa.Call:
+		name := calleeName(&x.Call)
+		for _, s := range errorCtorSuffixes {
+			if strings.HasSuffix(name, s) {
+				return true
+			}
+		}
+	case *ssa.UnOp:
+		if g, ok := x.X.(*ssa.Global); ok && strings.HasPrefix(g.Name(), "Err") {
+			return true
+		}
+	case *ssa.ChangeInterface:
+		return definitelyError(x.X, depth+1)
+	case *ssa.Phi:
+		for _, e := range x.Edges {
+			if !definitelyError(e, depth+1) {
+				return false
+			}
+		}
+		return len(x.Edges) > 0
+	}
+	return false
 }
 
 func describe(v interface{}) string { return fmt.Sprintf("%v", v) }
